@@ -24,6 +24,16 @@ var FxPackages = [][2]string{
 	{"fx/ab", "ab"}, {"fx/a", "a"}, {"fx/fmt", "fmt"}, {"fx/os", "os"}, {"fx/errors", "errors"},
 }
 
+// FxManyPackages: fourteen more copies of the fixture package, for configurations with more distinct import paths
+// than one hexadecimal digit can number.
+var FxManyPackages = func() [][2]string {
+	var out [][2]string
+	for i := 0; i < 14; i++ {
+		out = append(out, [2]string{fmt.Sprintf("fx/many/m%02d", i), fmt.Sprintf("m%02d", i)})
+	}
+	return out
+}()
+
 // HelpersVersion reads the pinned runtime version from the repository's go.mod.
 func HelpersVersion(repo string) (string, error) {
 	b, err := os.ReadFile(filepath.Join(repo, "go.mod"))
@@ -65,7 +75,7 @@ func WriteUniverse(repo, dir string, typesOnly bool) error {
 			return err
 		}
 	}
-	for _, p := range FxPackages {
+	for _, p := range append(append([][2]string{}, FxPackages...), FxManyPackages...) {
 		d := filepath.Join(dir, strings.TrimPrefix(p[0], "fx/"))
 		os.MkdirAll(d, 0o755)
 		src := fxSource(fxPkg, p[1], p[0])
@@ -115,7 +125,7 @@ var stdForTemplates = []string{"context", "errors", "fmt", "os", "reflect", "str
 // the runtime and the standard library packages generated code uses.
 func ExportMap(repo, probeDir string, typesOnly bool) (map[string]string, error) {
 	var imp []string
-	for _, p := range FxPackages {
+	for _, p := range append(append([][2]string{}, FxPackages...), FxManyPackages...) {
 		imp = append(imp, p[0])
 	}
 	if !typesOnly {
